@@ -233,9 +233,11 @@ class DashOption:
 
     @staticmethod
     def unquoted_url_or_none_from_string(value: str):
+        # the value has already been unquoted by the query string parser,
+        # unquoting it again would damage a URL that contains '%' or '+'
         if value.lower() in ['', 'none']:
             return None
-        return urllib.parse.unquote_plus(value)
+        return value
 
     @staticmethod
     def quoted_url_or_none_to_string(value: str | None):
